@@ -188,6 +188,8 @@ func (r *reader) readint64(tag byte) (int64, error) {
 func (r *reader) readFloat32(tag byte) (float32, error) {
 	if b, err := r.readBytes(tag); err != nil {
 		return 0, err
+	} else if len(b) < 4 {
+		return 0, io.ErrUnexpectedEOF
 	} else {
 		bits := binary.LittleEndian.Uint32(b)
 		return math.Float32frombits(bits), nil
@@ -198,7 +200,11 @@ func read(r io.Reader) (map[byte][]bucket, error) {
 	var h = map[byte][]bucket{}
 
 	var tag, n byte
-	var lastItemWasDelimiter bool
+	// The items between two delimiters form a group. An item continues the previous
+	// item of the same tag (a value longer than 255 bytes is split up into
+	// fragments) only if both are in the same group.
+	var group int
+	var groups = map[byte]int{}
 	for {
 		if err := binary.Read(r, binary.LittleEndian, &tag); err != nil {
 			if err == io.EOF {
@@ -217,17 +223,20 @@ func read(r io.Reader) (map[byte][]bucket, error) {
 
 		if len(v) > 0 {
 			if l, ok := h[tag]; ok {
-				if lastItemWasDelimiter {
+				if groups[tag] != group {
 					h[tag] = append(l, v)
 				} else {
-					h[tag] = []bucket{append(l[0], v...)}
+					l[len(l)-1] = append(l[len(l)-1], v...)
 				}
 			} else {
 				h[tag] = []bucket{v}
 			}
+			groups[tag] = group
 		}
 
-		lastItemWasDelimiter = tag == 0 && n == 0
+		if tag == 0 && n == 0 {
+			group++
+		}
 	}
 
 	return h, nil
